@@ -55,3 +55,28 @@ def worker_runs_unlocked(ck, cls, tag, rule):
         ck.ob(rule, sitestr(ce, r), not bad, "%s: the worker runs the handler without holding the hand-off mutex (producers only wait for a post, never for a sink)" % tag if not bad else
               "%s: the worker holds %s while the sinks run; OwnThreadHandler::process needs the same mutex to post, so the logging call blocks on the sink" % (tag, bad[0]),
               key="Worker::customEvent|run-under-handoff-mutex")
+
+
+def worker_cleared_after_stop(ck, cls, tag, rule):
+    """m_worker becomes null only after quit() and wait(): while the thread can still be delivering queued messages a null
+    worker makes process() run the handler on the caller's thread — out of order, off the logger thread and blocking"""
+    F = ck.facts
+    rs = [f for f in F.fns.values() if f.cls == cls and f.name == cls + "::resetOwnThread"]
+    ck.require(len(rs) == 1, "%s: resetOwnThread not found" % tag)
+    rs = rs[0]
+    ck.touch(rs)
+    g = Graph(rs)
+    W = OT + "::m_worker"
+    clears = [n for n in rs.find(lambda n: n.get("k") == "binop" and n.get("op") == "=" and is_this_field(n.get("lhs"), W) and skip_copies(n.get("rhs")).get("k") == "null_lit")]
+    clears += [n for n in rs.calls() if n.get("ck") == "member" and is_this_field(n.get("obj"), W) and name_is(n.get("callee"), ("clear", "reset"))]
+    waits = [n for n in rs.calls("QThread::wait")]
+    quits = [n for n in rs.calls() if name_is(n.get("callee"), ("QThread::quit", "QThread::exit"))]
+    if not clears or not waits or not quits:
+        ck.ob(rule, sitestr(rs), None, "%s: resetOwnThread: clear/quit/wait anchors not found (%d/%d/%d)" % (tag, len(clears), len(quits), len(waits)))
+        return
+    for c in clears:
+        cs = g.site_of(c)
+        ok = g.dominated(cs, set(g.sites_of_nodes(waits))) and g.dominated(cs, set(g.sites_of_nodes(quits)))
+        ck.ob(rule, sitestr(rs, c), ok, "%s: the worker pointer is cleared only after quit() and wait(): until then every message goes through the queue" % tag if ok else
+              "%s: the worker pointer is cleared while the thread may still be delivering the backlog: a message logged meanwhile is run synchronously on the caller's thread, overtaking queued ones" % tag,
+              key="resetOwnThread|clear-before-wait")
